@@ -48,6 +48,9 @@ func DigestPart(name string, mk func() (*Env, Driver), depthQuick, depthThorough
 			// ... and replica 2 is a host in another time zone
 			time.Local = otherZone
 			defer func() { time.Local = hostZone }()
+			// ... and a node whose app.toml enables telemetry
+			setTelemetry(true)
+			defer setTelemetry(false)
 		}
 		var out []pathDigest
 		var rec func(s *State, path []string, results []byte)
